@@ -158,7 +158,10 @@ func runC15(c *Ctx) {
 			}
 			lz := "bin<>>>(" + top + ", call<math/bits.LeadingZeros>(conv<uint>(bin<->(p0, 1))))"
 			_, ok := ana.MatchAny(t, "bin<<<>(1, bin<&>("+core+", "+ws+"))", "bin<<<>(1, "+core+")", "bin<<<>(1, conv<uint>("+core+"))", "bin<<<>(1, bin<&>(conv<uint>("+core+"), "+ws+"))",
-				lz, "conv<int>("+lz+")")
+				lz, "conv<int>("+lz+")",
+				// 1 << (W-1 - LeadingZeros(y)): W-1-LeadingZeros(y) = Len(y)-1
+				"bin<<<>(1, bin<->("+itoa(int64(c.wordBits()-1))+", conv<uint>(call<math/bits.LeadingZeros>(conv<uint>(bin<->(p0, 1))))))",
+				"bin<<<>(1, conv<uint>(bin<->("+itoa(int64(c.wordBits()-1))+", call<math/bits.LeadingZeros>(conv<uint>(bin<->(p0, 1))))))")
 			r.Check(ok, "C15.split-helper.term", c.ipos(e.Instr), "split(n) = 1 << ((bits.Len(uint(n-1)) - 1) [& %s]): %s", ws, t)
 		}
 		nBranch := len(sb.CondEdges()) / 2
